@@ -284,6 +284,8 @@ def concat_check(sc):
         pexc = exc_chain(e)
     if wexc or pexc:
         return None, False     # raising predicates: compared through the model, not here
+    if len(whole) >= 300 or len(parts) >= 300:
+        return None, False     # enumeration caps reached: not comparable
     if whole != parts:
         n = next((i for i in range(min(len(whole), len(parts))) if whole[i] != parts[i]), min(len(whole), len(parts)))
         return f"p+q yields {len(whole)} results, q from each match of p yields {len(parts)}; first difference at {n}", True
